@@ -113,20 +113,29 @@ CHECKS["C14"] = dict(
    text="Theorems over ALL recipients, report bytes, sender forms and configurations about the Lean model Nq.Bounce of qmail-send.c "
         "stripvdomprepend()/addbounce()/del_dochan()/getcontrols()/injectbounce(): each addbounce call is exactly one paragraph that begins with "
         "the recipient line (LF shown as _), the bounce file and the queued notice contain exactly one paragraph per failed recipient in order, "
-        "the report is shown byte for byte up to LF->/ and the original message is appended; the prefix removed is exactly the governing "
-        "virtualdomains entry's (and undoes rewrite()'s prepend); the notice goes with empty sender to the VERP base address, a failed bounce "
+        "the report is shown byte for byte up to LF->/ and the original message is appended; the named address undoes exactly what rewrite() did "
+        "(nothing for a locals domain, else the virtual-user prefix, else the governing virtualdomains entry's prefix); the notice goes with empty sender to the VERP base address, a failed bounce "
         "to doublebounceto@doublebouncehost from #@[], a failed double bounce nowhere, so every chain has length <= 3; injectbounce removes "
         "bounce/<id> only after the notice was queued, never sends again after success and loses nothing on failure; D and expired-Z reports "
-        "are recorded, others not. The literal in-place scan loop is proved equal to the model's. Tied to the current source by running the real "
-        "functions (sanitised build, in-memory queue files, captured qmail-queue interface, 10 fault points, all control-file combinations) "
+        "are recorded, others not. DAEMON LEVEL (for every event sequence the qmail-send monitor Nq.Daemon of C03/C04 accepts - any interleaving, failing calls, "
+        "crashes, restarts - with a history layer that refuses nothing): bounce/<m> is unlinked only right after a successful injection of exactly its "
+        "current content (no event on the file in between; text contains the file; envelope = bounce envelope of the sender qmail-queue accepted) or for a #@[] message; "
+        "every appended paragraph is, with multiplicity, still in the file (message stays queued), in exactly one committed bounce whose text contains it, or discarded with a #@[] "
+        "message; once info/<m> is gone none is left or dropped; a failed injection keeps the record and forbids the unlink; and every behaviour of the injectbounce "
+        "model (all 10 fault points) is a behaviour the monitor accepts, its envelope and text passing the monitor's guard. The literal in-place scan loop is proved equal to the model's. "
+        "Tied to the current source by running the real "
+        "functions (sanitised build, in-memory queue files, captured qmail-queue interface, 10 fault points, all 128 control-file combinations incl. locals) "
         "against the compiled model on every report over {LF,x,<,>,:,0x80} up to length 7/9, every recipient over {LF,a,b,@,-,.} up to 6/7, "
-        "all sender forms, bounce->double bounce->discard chains and random cases; the paragraph/envelope/chain oracle is evaluated on the implementation's output.",
-   note=NOTE_COMMON + "Modelled, not verified: qmail-queue behind the qmail_* interface (C07/C01), the in-memory file table, NUL-free strings; "
-        "the daemon-level 'at most one bounce per message' (messdone scheduling, crashes) is left to the Daemon model (C03/C04) - here it is proved for injectbounce itself. "
-        "Two findings about stripvdomprepend vs rewrite() (virtual user entries, locals) are documented in notes/C14.md with patches.",
-   technique="Lean 4 proof (paragraph-reader automaton + closed form of addbounce, case analysis of injectbounce) + exhaustive/fault-injecting differential correspondence with the C code",
+        "all sender forms, bounce->double bounce->discard chains and random cases; every injectbounce case and every whole chain is also replayed, with the bytes the real "
+        "addbounce() appended and the envelope/text the real injectbounce() queued, through the daemon monitor, which must accept it; the paragraph/envelope/chain/once oracle is evaluated on the implementation's output.",
+   note=NOTE_COMMON + "Modelled, not verified: qmail-queue behind the qmail_* interface (C07/C01), the in-memory file table, NUL-free strings. "
+        "Daemon-level theorems are about the monitor's accepted sequences; that real qmail-send runs are accepted is C03/C04's correspondence (qsim) plus, for the bounce events, this check's replay. "
+        "At-least-once: a notice whose unlink failed is injected again (stated). Two imprecisions of the monitor found (not of qmail-send): it does not VERP-strip the sender before the #@[] test "
+        "(sender '#@[]-@[]': theorem C14_daemon_verp_discard_gap, such senders are not replayed) and its paragraph-header guard ignores stripvdomprepend. "
+        "Not a theorem: that a paragraph's text names the address of its record (monitor guard + oracle only). "
+        "Two defects of stripvdomprepend vs rewrite() (virtual user entries, locals) were found by this work and are repaired (160bf54, dd724e5); the check flags the old behaviours.",
+   technique="Lean 4 proof (paragraph-reader automaton + closed form of addbounce, case analysis of injectbounce, history invariant over the daemon acceptor with trace characterisation) + exhaustive/fault-injecting differential correspondence with the C code and replay through the daemon monitor",
    design="DESIGN.md §2 C14")
-
 CHECKS["C15"] = dict(
    text="Theorems about the Lean model of qmail-send.c's scheduling code and prioq.c: squareroot() is the exact integer root for ALL ages 0..2^32-1 (16-step loop invariant), saturates above, "
         "never overflows for any non-negative long; nextretry() is strictly in the future and equals birth+(isqrt(age)+10|20)^2 (chanskip regenerated from the source), attempts are at least 100 s apart and the "
